@@ -353,8 +353,11 @@ class MultiValue(Object):
         except AttributeError:
             pass
 
-        result = self._rvalues = list(filter(None, (
-            v.resolve(ctx) for v in self.values)))
+        before = Partial.count
+        result = list(filter(None, (v.resolve(ctx) for v in self.values)))
+        if Partial.count == before:
+            # values computed from a partial (cycle guard) answer are not kept
+            self._rvalues = result
         return result
 
     def attr_list(self, ctx):
